@@ -23,20 +23,22 @@ SETY_KEY = lin.SETY_KEY
 
 def gen_static(g, Dw, Dy, N):
     prior = lin.gen_pdfv(g, 1, Dw, ctor="Sigma")
+    cls = g.choice(["full", "full", "diag"])
+    ctor = g.choice(["Sigma", "Lambda", "all"])
     obs = []
     for _ in range(N):
-        c = lin.gen_cond(g, "full", 1, Dy, Dw, ctor="Sigma")
+        c = lin.gen_cond(g, cls, 1, Dy, Dw, ctor=ctor)
         if c["b"] is None:
             c["b"] = [[Fr(0)] * Dy]
         obs.append(dict(c=c, y=g.vec(Dy)))
     perm = list(range(N)); g.shuffle(perm)
-    return dict(scn="static", prior=prior, obs=obs, perm=perm, Dw=Dw, Dy=Dy)
+    return dict(scn="static", prior=prior, obs=obs, perm=perm, Dw=Dw, Dy=Dy, cls=cls, ctor=ctor)
 
 
 def gen_kalman(g, Dz, Dx, T):
     return dict(scn="kalman", Dz=Dz, Dx=Dx, T=T, prior=lin.gen_pdfv(g, 1, Dz, ctor="Sigma"),
-                state=dict(lin.gen_cond(g, "full", 1, Dz, Dz, ctor="Sigma"), b=[g.vec(Dz)]),
-                emis=dict(lin.gen_cond(g, "full", 1, Dx, Dz, ctor="Sigma"), b=[g.vec(Dx)]),
+                state=dict(lin.gen_cond(g, g.choice(["full", "diag"]), 1, Dz, Dz, ctor=g.choice(["Sigma", "Lambda"])), b=[g.vec(Dz)]),
+                emis=dict(lin.gen_cond(g, g.choice(["full", "diag"]), 1, Dx, Dz, ctor=g.choice(["Sigma", "Lambda"])), b=[g.vec(Dx)]),
                 ys=g.mat(T, Dx))
 
 
@@ -64,7 +66,7 @@ def search_descs(g, failing, tier):
            [C.J(gen_kalman(g, 1, 1, 2))]
 
 
-hist = lambda d: dict(scn=d["scn"], N=len(d.get("obs", [])), T=d.get("T"), Dw=d.get("Dw", d.get("Dz")), Dy=d.get("Dy", d.get("Dx")))
+hist = lambda d: dict(scn=d["scn"], cls=d.get("cls"), ctor=d.get("ctor"), N=len(d.get("obs", [])), T=d.get("T"), Dw=d.get("Dw", d.get("Dz")), Dy=d.get("Dy", d.get("Dx")))
 nontrivial = lambda d: len(d.get("obs", [])) >= 2 or (d.get("T") or 0) >= 2
 scenario = lambda d: d["scn"]
 
@@ -72,7 +74,7 @@ scenario = lambda d: d["scn"]
 def batch_cond(obs):
     """the N observation models as one batched conditional (R = N)"""
     c0 = obs[0]["c"]
-    return dict(cls="full", R=len(obs), Dy=c0["Dy"], Dx=c0["Dx"], ctor="Sigma",
+    return dict(cls=c0["cls"], R=len(obs), Dy=c0["Dy"], Dx=c0["Dx"], ctor=c0["ctor"],
                 M=[o["c"]["M"][0] for o in obs], b=[o["c"]["b"][0] for o in obs], Sig=[o["c"]["Sig"][0] for o in obs])
 
 
